@@ -219,3 +219,29 @@ def mc_cached(module, cfg, tag, **kw):
     r["cached"] = False
     json.dump(r, open(cf, "w"))
     return r
+
+
+def tlc_generate(module, cfg, tag, timeout=3000):
+    """Runs a GEN_* module: TLC evaluates the module's ASSUMEs, which write the enumerated cases as ND-JSON to the
+    file named by GEN_OUT. The result depends only on spec/, so it is cached by the hash of the specification."""
+    files = [os.path.join(SPEC, f) for f in os.listdir(SPEC) if f.endswith(".tla")] + [os.path.join(SPEC, cfg)]
+    key = sha_of(files)[:24] + "_" + cfg.replace(".cfg", "")
+    cdir = os.path.join(OUT, "gen-cache")
+    os.makedirs(cdir, exist_ok=True)
+    outp = os.path.join(cdir, key + ".ndjson")
+    if not os.path.exists(outp):
+        meta = os.path.join(OUT, "tlc", tag)
+        shutil.rmtree(meta, ignore_errors=True)
+        os.makedirs(meta, exist_ok=True)
+        env = dict(os.environ)
+        env["GEN_OUT"] = outp + ".tmp"
+        cmd = ["java", "-XX:+UseSerialGC", "-Xmx8g", "-Xss512m", "-cp", JARS, "tlc2.TLC", "-nowarning", "-workers", "1",
+               "-metadir", meta, "-cleanup", "-noGenerateSpecTE", "-config", cfg, module + ".tla"]
+        t0 = time.time()
+        p = subprocess.run(cmd, cwd=SPEC, env=env, stdout=subprocess.PIPE, stderr=subprocess.STDOUT, text=True, timeout=timeout)
+        shutil.rmtree(meta, ignore_errors=True)
+        if "GEN-COUNT" not in p.stdout or not os.path.exists(outp + ".tmp"):
+            raise ToolError("case generation failed (%s/%s):\n%s" % (module, cfg, p.stdout[-1500:]))
+        os.replace(outp + ".tmp", outp)
+        log("[GEN] %s/%s %.0fs" % (module, cfg, time.time() - t0))
+    return read_ndjson(outp)
